@@ -81,10 +81,16 @@ def cases(tier, seed):
         for content in contents_for(True, fsp):
             if content != 'L':
                 yield dict(kind='bfs', storage='mem_recorded', fmag=True, fsp=fsp, content=content, depth=depth)
+    # catalogs bound to another cell order; custom loaders with decreasing catalog ids
+    for content in ('A', 'C', 'E'):
+        yield dict(kind='bfs', storage='mem_other_region', fmag=False, fsp=False, content=content, depth=depth)
+        for storage in ('loader_store', 'loader_nostore'):
+            yield dict(kind='bfs', storage=storage, fmag=False, fsp=False, content=content, depth=depth)
     # the caller announces more catalogs than the file lists (n_cat given to the constructor): every pass still defines n_cat
     for storage in ('file_store', 'file_nostore'):
         for content in ('A', 'E'):
             yield dict(kind='bfs', storage=storage, fmag=False, fsp=(content == 'E'), content=content, depth=depth, hint=2)
+            yield dict(kind='bfs', storage=storage, fmag=False, fsp=(content == 'E'), content=content, depth=depth, hint=-1)
     # very many events per bin (every single operation on a fresh object and every pair of operations)
     yield dict(kind='bfs', storage='mem', fmag=False, fsp=False, content='H', depth=1)
     # seed-selected extra complete block (quick): one configuration explored one level deeper
@@ -131,6 +137,20 @@ def build(case, path):
     filters = ['magnitude >= 5.0'] if case['fmag'] else None
     apply_filters = bool(case['fmag'] or case['fsp'])
     kw = dict(region=reg, filters=filters, filter_spatial=case['fsp'], apply_filters=apply_filters, name='fc')
+    if case['storage'] == 'mem_other_region':
+        # the synthetic catalogs already carry a region of their own: the same cells stored in REVERSE order
+        other = fixtures.cartesian_region(ORIGINS[::-1], DH, magnitudes=MAGS)
+        cats = [fixtures.catalog(evs, region=other, catalog_id=i, name='fc') for i, evs in enumerate(CONTENTS[case['content']])]
+        return CatalogForecast(catalogs=cats, n_cat=len(cats), **kw)
+    if case['storage'] in ('loader_store', 'loader_nostore'):
+        # a user-supplied loader whose catalog ids DEcrease along the stream (several batch files numbered from the end)
+        contents = CONTENTS[case['content']]
+        J_ = len(contents)
+
+        def loader(format=None, filename=None, region=None, name=None, **_):
+            for i, evs in enumerate(contents):
+                yield fixtures.catalog(evs, region=region, catalog_id=J_ - 1 - i, name='fc')
+        return CatalogForecast(filename=path, loader=loader, store=(case['storage'] == 'loader_store'), **kw)
     if case['storage'] in ('mem', 'mem_recorded'):
         # mem_recorded: the synthetic catalogs were built with filters=<the forecast's statements>, which only RECORDS them
         ckw = dict(filters=list(filters)) if (case['storage'] == 'mem_recorded' and filters) else {}
@@ -248,7 +268,8 @@ def judge_obs(case, hist, op, obs, fresh, ref, failures, counters):
         return
     # absolute oracle
     if op == 'IT':
-        want = [(i, [(e[0], e[1], e[2], e[3], e[4], e[5]) for e in cat]) for i, cat in enumerate(ref)]
+        ids = (lambda i: J - 1 - i) if case['storage'].startswith('loader_') else (lambda i: i)
+        want = [(ids(i), [(e[0], e[1], e[2], e[3], e[4], e[5]) for e in cat]) for i, cat in enumerate(ref)]
         got = [(cid, [tuple(e) for e in evs]) for cid, evs in obs[1]]
         if got != want:
             fail('pass-differs-from-reference', f'pass yields {str(got)[:300]} expected {str(want)[:300]}')
